@@ -1,11 +1,13 @@
+\* exhaustive: map key order, keys of every head size, two pairs per map
 SPECIFICATION Spec
 CONSTANTS
   Ints <- KeyInts
   Strs <- KeyStrs
-  Tags <- DeepTags
+  Tags <- NoTags
   MaxStack = 4
   MaxNodes = 5
   MaxDepth = 2
   MaxArr = 0
   MaxPairs = 2
-INVARIANTS TypeOK RoundTrip SelfDelimiting NoItemIsAPrefix PrefixFree CanonicalEncoding ReEncode HeadIsShortest WrapIsExact
+  AllowWrap = FALSE
+INVARIANTS TypeOK RoundTrip SelfDelimiting NoItemIsAPrefix PrefixFree CanonicalEncoding ReEncode HeadIsShortest WrapIsExact 
